@@ -97,6 +97,7 @@ CONSTANTS
   MaxCalls = {calls}
   EmptyCompactionDropsAll = {empty}
   GenFromTag = {gentag}
+  CacheLostOnFailedCommit = {cachelost}
 {invs}
 VIEW View
 {extra}
@@ -111,9 +112,9 @@ def _mc_impl(v):
     calls = 6 if quick else 7
     both = ("INVARIANT OneCopy\nINVARIANT RefinesCore\nINVARIANT CacheSound\nINVARIANT TagBound\n"
             "INVARIANT SidsUnique\nINVARIANT GensUnique\nPROPERTY GenMonotone")
-    cfg = lib.write_cfg("MC_IndexImpl_ideal_run.cfg", IMPL_CFG.format(ids="{1, 2}", calls=calls, empty="FALSE", gentag="FALSE", invs=both, extra=""))
+    cfg = lib.write_cfg("MC_IndexImpl_ideal_run.cfg", IMPL_CFG.format(ids="{1, 2}", calls=calls, empty="FALSE", gentag="FALSE", cachelost="FALSE", invs=both, extra=""))
     ideal = lib.tlc_mc("IndexImpl.tla", cfg, timeout=3000)
-    lib.require_mc_ok(ideal, "IndexImpl (as built)", need_actions=["NewWriter", "DropWriter", "Add", "Delete", "Commit", "Rollback", "Compact"])
+    lib.require_mc_ok(ideal, "IndexImpl (as built)", need_actions=["NewWriter", "DropWriter", "Add", "Delete", "Commit", "CommitFails", "Rollback", "Compact"])
     # the mutated designs: each counterexample's call history is printed (CASE) and replayed into
     # the real code by the history driver, where the as-built code must behave like IndexCore
     witnesses = []
@@ -122,7 +123,7 @@ def _mc_impl(v):
             ("gentag", "IndexImpl with generation taken from the handle's tag", "{1, 2}", 10, "FALSE", "TRUE"),
             ("emptycompact", "IndexImpl with empty compaction dropping every segment", "{1}", 15, "TRUE", "FALSE")):
         for seed_workers in (1, 4):
-            cfg = lib.write_cfg(f"MC_IndexImpl_{name}_run.cfg", IMPL_CFG.format(ids=ids, calls=ncalls, empty=empty, gentag=gentag, invs=wit,
+            cfg = lib.write_cfg(f"MC_IndexImpl_{name}_run.cfg", IMPL_CFG.format(ids=ids, calls=ncalls, empty=empty, gentag=gentag, cachelost="FALSE", invs=wit,
                                                                                 extra="CONSTRAINT SmallPending"))
             r = lib.tlc_mc("IndexImpl.tla", cfg, workers=seed_workers, timeout=1500, coverage=False)
             lib.expect_mc_violation(r, what, {"RefinesOrWitness"})
@@ -130,6 +131,12 @@ def _mc_impl(v):
             if not cases:
                 raise lib.ToolError(f"{what}: counterexample without a CASE line\n{r['raw'][-1500:]}")
             witnesses += cases
+    # a fault-related mutation (seeded change C03): no replayable history (the history driver
+    # injects no faults), refutation only
+    cfg = lib.write_cfg("MC_IndexImpl_cachelost_run.cfg", IMPL_CFG.format(ids="{1}", calls=8, empty="FALSE", gentag="FALSE", cachelost="TRUE",
+                                                                         invs=both, extra="CONSTRAINT SmallPending"))
+    r = lib.tlc_mc("IndexImpl.tla", cfg, timeout=1500, coverage=False)
+    lib.expect_mc_violation(r, "IndexImpl with the cache lost by a failed commit", {"OneCopy", "RefinesCore", "CacheSound"})
     return ideal, calls, witnesses
 
 
@@ -142,7 +149,7 @@ def run_c04(v):
     v.coverage["impl_refinement_model"] = {
         "module": "IndexImpl.tla", "bounds": "2 ids, 2 handles, <= %d calls, exhaustive" % calls,
         "distinct_states": ideal["distinct"], "invariants": ["OneCopy", "RefinesCore"],
-        "mutations_refuted": ["GenFromTag", "EmptyCompactionDropsAll"],
+        "mutations_refuted": ["GenFromTag", "EmptyCompactionDropsAll", "CacheLostOnFailedCommit"],
     }
 
 
